@@ -106,6 +106,7 @@ def main(ctx, replay=None):
         cases += gen.per_state(t)
         cases += gen.degenerate(t, all_states=not quick)
         cases += gen.repeats(t)
+        cases += gen.split(t)
         cases += gen.scenarios(t, 100 if quick else 2000)
         cases += gen.random_cases(t, 350 if quick else 6000)
     cases += gen.chain_matrix()
